@@ -209,15 +209,20 @@ func (r *SimReader) read(p []byte) (int, error) {
 
 // SimWriter records everything written.
 type SimWriter struct {
-	buf   []byte
-	sizes []int
-	sched Yielder
-	task  int
+	buf    []byte
+	sizes  []int
+	sched  Yielder
+	task   int
+	failAt int // 1-based Write call that fails (0 = never); the fault is sticky
 }
 
 func (w *SimWriter) Write(p []byte) (int, error) {
 	if w.sched != nil {
 		w.sched.Yield(w.task)
+	}
+	if w.failAt > 0 && len(w.sizes)+1 >= w.failAt {
+		w.sizes = append(w.sizes, 0)
+		return 0, ErrSimIO
 	}
 	w.buf = append(w.buf, p...)
 	w.sizes = append(w.sizes, len(p))
